@@ -39,7 +39,7 @@ def _second_run_checks(pr, be, jobs1, n_cmds_before):
     except Exception as exc:
         return "the next invocation does not start normally: %s: %s" % (type(exc).__name__, str(exc)[:120])
     jobs_all = abst.jobs_by_cmd(w)
-    jobs2 = jobs_all[len(jobs1):]
+    jobs2 = jobs_all[n_cmds_before + len(jobs1):]
     accepted = {}
     for j in jobs1:
         accepted[j["name"]] = j["id"]
@@ -84,6 +84,22 @@ def _q9a(k, kind):
             w.pool.fault_at = kk
         w.install()
     try:
+        prior_jobs = []
+        if sh.get("prior"):
+            # an earlier complete run whose jobs then failed (first target) / were cancelled (the others)
+            fa, fk = (w.sim.fault_at, w.sim.fault_kind) if w.sim is not None else (w.pool.fault_at, 0)
+            if w.sim is not None:
+                w.sim.fault_at = None
+            else:
+                w.pool.fault_at = None
+            w.concretely(w.run)
+            prior_jobs = abst.jobs_by_cmd(w)
+            for n_, j in enumerate(prior_jobs):
+                abst.set_state(w, j["id"], "failed" if n_ == 0 else "cancelled")
+            if w.sim is not None:
+                w.sim.fault_at, w.sim.fault_kind, w.sim.ncmd = fa, fk, 0
+            else:
+                w.pool.fault_at, w.pool.nreq = fa, 0
         failed = None
         try:
             w.run()
@@ -99,22 +115,22 @@ def _q9a(k, kind):
         msg = _load_ok(pr)
         if msg:
             return msg
-        jobs1 = abst.jobs_by_cmd(w)
+        jobs1 = abst.jobs_by_cmd(w)[len(prior_jobs):]
         accepted = [j["name"] for j in jobs1]
         hashes = pr.read_json(w.hashes_path())
         for nm in hashes:
-            if nm not in accepted:
+            if nm not in accepted and not prior_jobs:
                 return "spec hash of %s recorded although its submission was not accepted (fault: %s at command %d; accepted: %s)" % (nm, FAULT_KINDS[kind], kk, accepted)
         tracked = pr.read_json(w.tracked_path())
         for nm in accepted:
             if str(tracked.get(nm)) != str([j["id"] for j in jobs1 if j["name"] == nm][-1]):
                 return "accepted job of %s (%s) is not recorded after the failed run: %s" % (nm, [j["id"] for j in jobs1 if j["name"] == nm], tracked)
         for nm in tracked:
-            if nm not in accepted:
+            if nm not in accepted and not prior_jobs:
                 return "a job id is recorded for %s although the scheduler accepted nothing for it: %r" % (nm, tracked[nm])
         if failed is None:
             return "command %d failed (%s) but the run reported success" % (kk, FAULT_KINDS[kind])
-        return _second_run_checks(pr, be, jobs1, 0)
+        return _second_run_checks(pr, be, jobs1, len(prior_jobs))
     finally:
         w.uninstall()
 
@@ -206,10 +222,11 @@ def w9b(k: int, hashing: bool) -> str:
 
 QUERIES = [
     {"name": "Q9a", "fn": q9a,
-     "shards": {"quick": [{"be": "slurm", "shape": "chain2", "maxk": 5}, {"be": "slurm", "shape": "fork3", "maxk": 6}, {"be": "lsf", "shape": "chain2", "maxk": 3}, {"be": "local", "shape": "chain2", "maxk": 2}],
-                "thorough": [{"be": b, "shape": s, "maxk": 7} for b in ("slurm", "sge", "lsf", "local") for s in ("chain2", "fork3", "chain3")]},
+     "shards": {"quick": [{"be": "slurm", "shape": "chain2", "maxk": 5}, {"be": "slurm", "shape": "fork3", "maxk": 6}, {"be": "lsf", "shape": "chain2", "maxk": 3}, {"be": "local", "shape": "chain2", "maxk": 2},
+                          {"be": "slurm", "shape": "chain3", "maxk": 6, "prior": True}, {"be": "sge", "shape": "chain2", "maxk": 4, "prior": True}],
+                "thorough": [{"be": b, "shape": s, "maxk": 7, "prior": p} for b in ("slurm", "sge", "lsf", "local") for s in ("chain2", "fork3", "chain3") for p in (False, True)]},
      "timeout": {"quick": 900, "thorough": 1800},
-     "bound": "fault at the k-th scheduler command of the first run (k symbolic, up to the number of commands the run issues: state queries and submissions), 3 fault kinds; then a fault-free run; chain of 2, fork of 3 (quick); + chain of 3, all backends (thorough); spec hashing on"},
+     "bound": "(optionally after an earlier complete run whose jobs then failed / were cancelled) fault at the k-th scheduler command of the first run (k symbolic, up to the number of commands the run issues: state queries and submissions), 3 fault kinds; then a fault-free run; chain of 2, fork of 3 (quick); + chain of 3, all backends (thorough); spec hashing on"},
     {"name": "W9b", "fn": w9b, "shards": [], "timeout": 60, "bound": "witness of the known finding C09-hard-kill-loses-ids (concrete)"},
     {"name": "Q9b", "fn": q9b,
      "shards": {"quick": [{"be": "slurm", "shape": "chain2", "maxk": 30}, {"be": "slurm", "shape": "chain2", "maxk": 30, "prior": True}],
